@@ -176,8 +176,15 @@ func C03(c *core.Ctx) {
 		}
 	}
 
-	res := runE2EMixed(c, nshards+scopeShards, "TraceE2E_C03.cfg", func(i int) (string, interface{}) {
+	res := runE2EMixed(c, nshards+scopeShards+1, "TraceE2E_C03.cfg", func(i int) (string, interface{}) {
 		dir, trace := shardDir(c, i)
+		if i == nshards+scopeShards {
+			// the datapath goes away and comes back around association attempts (the scenario of C12's "connect" shards): a peer whose
+			// association was refused meanwhile stays unassociated, its session requests are rejected and write nothing
+			return "e2e-retrans", RetransParams{Dir: dir, Trace: trace, AgentBin: filepath.Join(c.BinDir, "verif-agent"), N4Addr: n4For(i), Seed: c.Seed*1000 + 60 + int64(i),
+				Mode: "connect", N: 5, TMs: 2000, IMs: 100, Rounds: 2}
+		}
+
 		if i >= nshards {
 			return "e2e-bess-scope", Up4ScopeParams{Dir: dir, Trace: trace, AgentBin: filepath.Join(c.BinDir, "verif-agent"), N4Addr: n4For(i), Seed: c.Seed*1000 + 30 + int64(i),
 				Scripts: scripts, Shard: i - nshards, Of: scopeShards}
